@@ -580,7 +580,7 @@ def nexus_doc(rng, hostile=True, nl="\n", force=None, with_chars=False, allow_mu
     if topt.get("internal_labels"):
         feats.add("internal-labels")
     return {"schema": "nexus", "text": "".join(out), "blocks": blocks, "features": sorted(feats), "matrices": matrices,
-            "taxa_blocks": len(groups) if have_taxa_block else 0}
+            "taxa_blocks": len(groups) if have_taxa_block else 0, "n_taxa": n_taxa}
 
 
 # ----------------------------------------------------------------------------------------
